@@ -11,6 +11,7 @@ import LZ4V.Judge.FrameDS
 import LZ4V.Judge.FileR
 import LZ4V.Judge.FastS
 import LZ4V.Judge.FastX
+import LZ4V.Judge.HC
 import Std.Data.HashMap
 /-!
 `lz4vmodel judge <casefile> <faildir>` : walk the case records written by a harness, run the specification / model
@@ -36,6 +37,7 @@ def dispatch (blobs : Std.HashMap Nat ByteArray) (r : Rec) : Verdict :=
   | 14 => (let x := judgeReadSession r; { fails := x.1, tags := x.2 })
   | 15 => (let x := judgeContigStream r; { fails := x.1, tags := x.2 })
   | 16 => (let x := judgePlacedStream r; { fails := x.1, tags := x.2 })
+  | 18 => (let x := judgeHC r; { fails := x.1, tags := x.2 })
   | 100 => {}
   | _ => { fails := [("unknown_op", s!"op={r.op}")] }
 
